@@ -150,6 +150,8 @@ class RSocketClient(RSocketBase):
                     self._connecting = True
                     self._connect_request_event.clear()
                     await self._close(reconnect=True)
+                    # requests issued while the old connection was being closed can not be served by it any more
+                    self.stop_all_streams()
                     self._next_transport = create_future()
                     await self.connect()
                 finally:
